@@ -253,7 +253,13 @@ func (w *Writer) SyncAndClose() error {
 }
 
 func Write(path string, offset int64, newVersion Version, opts Params, index []Item) (retErr error) {
-	w, err := OpenWriter(path, offset, newVersion, opts)
+	// write to a temp file and rename it in: a crash while writing must not leave a
+	// short (but well formed, hence trusted) or torn index behind
+	tmp := path + ".tmp"
+	if err := os.Remove(tmp); err != nil && !errors.Is(err, os.ErrNotExist) {
+		return fmt.Errorf("write index remove stale temp: %w", err)
+	}
+	w, err := OpenWriter(tmp, offset, newVersion, opts)
 	if err != nil {
 		return err
 	}
@@ -290,7 +296,13 @@ func Write(path string, offset int64, newVersion Version, opts Params, index []I
 		}
 	}
 
-	return w.SyncAndClose()
+	if err := w.SyncAndClose(); err != nil {
+		return err
+	}
+	if err := os.Rename(tmp, path); err != nil {
+		return fmt.Errorf("write index rename: %w", err)
+	}
+	return nil
 }
 
 func Read(path string, offset int64, opts Params) ([]Item, error) {
